@@ -334,6 +334,23 @@ static inline int spec_gm_div_u64_pp_ok(uint64_t q, uint64_t r, uint64_t n, uint
   uint64_t qq = (t1 + ((n - t1) >> 1)) >> sh2;
   return q == qq && r == n - AVM_MUL_u64(qq, d);
 }
+/* one lane of a vector Denominator<vecNx32i>: fields mp, d_sign, sh, d.  The signed high product either from the signed
+ * 32 x 32 -> 64 multiplier (pmuldq) or from the unsigned one (pmuludq) with the standard correction
+ * mulhs(x, y) = mulhu(x, y) - (x < 0 ? y : 0) - (y < 0 ? x : 0)  (mod 2^32; lemma L7, AvelLemmas) */
+static inline uint32_t spec_sar_u32(uint32_t x, uint32_t c) { return c >= 32 ? ((x & 0x80000000u) ? 0xffffffffu : 0u) : (uint32_t)((int32_t)x >> c); }
+static inline int spec_gm_div_i32_lane_ok(uint32_t q, uint32_t r, uint32_t n, uint32_t mp, uint32_t dsign, uint32_t sh, uint32_t d) {
+  uint32_t ts = (uint32_t)(uint64_t)(AVM_MUL_i64((int64_t)(int32_t)mp, (int64_t)(int32_t)n) >> 32);
+  uint32_t tu = (uint32_t)(AVM_MUL_u64((uint64_t)mp, (uint64_t)n) >> 32) - ((mp & 0x80000000u) ? n : 0u) - ((n & 0x80000000u) ? mp : 0u);
+  int ok = 0;
+  for (int form = 0; form < 2; form++) {
+    uint32_t t = form ? tu : ts;
+    uint32_t q0 = n + t;
+    uint32_t q1 = spec_sar_u32(q0, sh) - (uint32_t)((int32_t)n >> 31);
+    uint32_t qq = (q1 ^ dsign) - dsign;
+    ok = ok || (q == qq && (r == (uint32_t)(n - (uint32_t)AVM_MUL_u64((uint64_t)qq, (uint64_t)d)) || r == (uint32_t)(n - (uint32_t)AVM_MUL_u64((uint64_t)d, (uint64_t)qq))));
+  }
+  return ok;
+}
 static inline int spec_gm_div_u64_ok(uint64_t q, uint64_t r, uint64_t n, uint64_t m, uint64_t sh2, uint64_t d) {
   if (d == 1) return q == n && r == 0;
   uint64_t t1 = (uint64_t)(AVM_MUL_u128((unsigned __int128)m, (unsigned __int128)n) >> 64);
